@@ -121,6 +121,7 @@ NextTokenEnd(t, p) ==
        ELSE IF c \in {91, 93, 123, 125, 60, 62, 44, 58, 10, 13} THEN q + 1
        ELSE LET r == ReadVal(t, q) IN IF r.ok THEN r.p ELSE q + 1
 Slack == 16     \* the lexer's bounded look-ahead (number / date disambiguation peeks a few bytes)
+StreamSlack == 4      \* bytes of look-ahead admitted beyond the stream machine's own (observed: 2)
 
 RECURSIVE LazyOk(_, _, _, _)
 LazyOk(t, ends, consumed, i) ==
@@ -143,6 +144,35 @@ CheckSched(e) ==
                            <<"lazy iterator consumed the stream beyond the first token after a row", e.rows.consumed>>)
                  ELSE <<>>))
 
+\* ---- terminal states of MC_ZincStream replayed through the real lazy iterator (dec.stream) ----
+\* the row the model hands out (cells = digit sequences, empty = absent) as the tags of a row under the columns a b c d
+StreamCols == <<<<97>>, <<98>>, <<99>>, <<100>>>>
+RECURSIVE StreamTags(_, _)
+StreamTags(cells, i) ==
+    IF i > Len(cells) THEN <<>>
+    ELSE (IF cells[i] = <<>> THEN <<>> ELSE <<<<StreamCols[i], [k |-> "num", bits |-> F64OfNumeral(cells[i]), unit |-> <<>>]>>>>) \o StreamTags(cells, i + 1)
+\* the body is in the language both sides read the same way: no empty line (which ends a Zinc grid) 
+NoEmptyLine(body) == (body = <<>> \/ body[1] # 10) /\ \A i \in 1..(Len(body) - 1) : ~(body[i] = 10 /\ body[i + 1] = 10)
+RECURSIVE StreamRuns(_, _)
+StreamRuns(e, k) ==
+    IF k > Len(e.runs) THEN <<>>
+    ELSE LET r == e.runs[k]
+             \* rows before the first empty line are read the same way by both sides (what follows an empty line is no
+             \* part of the grid; libhaystack's reading of such non-sentences is not judged)
+             upto == IF \E i \in 1..Len(e.mref) : e.mref[i] = <<<<>>>> THEN (CHOOSE i \in 1..Len(e.mref) : e.mref[i] = <<<<>>>> /\ \A j \in 1..(i - 1) : e.mref[j] # <<<<>>>>) - 1
+                     ELSE Len(e.mref)
+             n == IF Len(r.rows) < upto THEN Len(r.rows) ELSE upto
+         IN Need(r.outcome \in {"ok", "err"}, "C03", <<"lazy iterator under a reader schedule", r.schedule, e.fail_at, r.outcome, r.msg>>)
+            \o Need(\A i \in 1..n : SameTags(r.rows[i], StreamTags(e.mref[i], 1)), "C11",
+                    <<"lazy iterator handed out a row that is not the row of the text", r.schedule, e.fail_at>>)
+            \o (IF e.fail_at = -1 /\ e.merr = "none" /\ NoEmptyLine(e.body) /\ r.outcome \in {"ok", "err"}
+                THEN Need(r.outcome = "ok" /\ Len(r.rows) = Len(e.mrows), "C11", <<"lazy iterator: rows differ from the stream machine's", r.schedule, r.outcome, Len(r.rows), Len(e.mrows)>>)
+                     \o Need(\A i \in 1..n : i > Len(e.myield) \/ r.consumed[i] - e.hdr <= e.myield[i] + StreamSlack, "C11",
+                             <<"lazy iterator consumed the stream beyond the first token after a row", r.schedule, r.consumed, e.myield>>)
+                ELSE <<>>)
+            \o StreamRuns(e, k + 1)
+CheckStream(e) == StreamRuns(e, 1)
+
 CheckStabHead(e) ==
     Need(e.outcome = "ok", "C11", <<"corpus file not decodable / re-encodable", e.path, e.outcome>>)
     \o (IF e.outcome = "ok" THEN Need(Same(e.a, e.b) /\ e.na = e.nb, "C11", <<"corpus file: re-encoding not stable", e.path>> \o Diff(e.a, e.b)) ELSE <<>>)
@@ -154,6 +184,7 @@ Check(e) == CASE e.op = "dec.zinc" -> CheckZinc(e)
               [] e.op = "dec.json" -> CheckJson(e)
               [] e.op = "dec.bomb" -> CheckBomb(e)
               [] e.op = "dec.sched" -> CheckSched(e)
+              [] e.op = "dec.stream" -> CheckStream(e)
               [] OTHER -> <<<<"SPEC", <<"unknown op", e.op>>>>>>
 
 Init == l = 1 /\ nbad = 0
